@@ -180,9 +180,14 @@ def run_property(prop, tier, seed, ck, no_bounded=False):
         print(ln)
 
     # ------------------------------------------------------------------ evidence
-    counted = [f for f in frame_obls if f.get('kind') != 'sampled']   # sampled side checks are never counted as proved
-    n_obl = (rep['n_obligations'] if rep else 0) + len(counted)
-    n_dis = (rep['n_discharged'] if rep else 0) + sum(1 for f in counted if f['status'] == 'discharged')
+    counted = [f for f in frame_obls if f.get('kind') != 'sampled' and f['name'] not in known_obls]
+    # sampled side checks are never counted as proved; obligations that fail because of a recorded known finding are
+    # listed separately (the defect is genuine: nothing is claimed about that clause)
+    pyvc_known = [o['name'] for o in (rep['obligations'] if rep else []) if o['name'] in known_obls]
+    n_obl = (rep['n_obligations'] if rep else 0) - len(pyvc_known) + len(counted)
+    n_dis = (sum(1 for o in rep['obligations'] if o['status'] == 'discharged' and o['name'] not in known_obls) if rep else 0) \
+        + sum(1 for f in counted if f['status'] == 'discharged')
+    cov['known_finding_obligations'] = pyvc_known + [f['name'] for f in frame_obls if f['name'] in known_obls]
     cov['obligations'] = n_obl
     cov['discharged'] = n_dis
     cov['checker_cmd'] = f'python3-vt check.py {prop} --tier {tier}'
